@@ -65,6 +65,66 @@ def registry_key_branches(A):
     return out
 
 
+def multichain_force_fanout(A):
+    """(ok, why): MultiChain.force reaches every member chain, unconditionally, with its own arguments unchanged."""
+    mc = A.cls('MultiChain')
+    chain = A.cls('Chain')
+    ff = mc.methods.get('force')
+    if ff is None:
+        return False, 'MultiChain.force missing'
+    tparam = ff.params[1]
+    kwname = ff.node.args.kwarg.arg if ff.node.args.kwarg else None
+    cfgf = A.cfg(ff)
+    cforce = chain.methods.get('force')
+    why = 'no loop over the chains'
+    ok = False
+    for lp in [n for n in inl(A, ff) if isinstance(n, ast.For)]:
+        it = src(lp.iter)
+        if 'self.chains' not in it:
+            continue
+        # the loop variable that holds the chain object / the key
+        chain_var = key_var = None
+        if it == 'self.chains.values()' and isinstance(lp.target, ast.Name):
+            chain_var = lp.target.id
+        elif it == 'self.chains.items()' and isinstance(lp.target, ast.Tuple) and len(lp.target.elts) == 2 and isinstance(lp.target.elts[1], ast.Name):
+            chain_var = lp.target.elts[1].id
+        elif it in ('self.chains', 'self.chains.keys()', 'list(self.chains)', 'sorted(self.chains)', 'list(self.chains.keys())') and isinstance(lp.target, ast.Name):
+            key_var = lp.target.id
+        else:
+            why = f'iteration `{it}` not recognised'
+            continue
+
+        def is_chain(e):
+            e = subst_single_assign(A, ff, e)
+            return (chain_var is not None and src(e) == chain_var) or (key_var is not None and src(e) == f'self.chains[{key_var}]')
+
+        calls = []
+        for n in ast.walk(lp):
+            if not isinstance(n, ast.Call):
+                continue
+            fn = subst_single_assign(A, ff, n.func) if isinstance(n.func, ast.Name) else n.func   # bound method held in a local
+            if isinstance(fn, ast.Attribute) and fn.attr == 'force' and is_chain(fn.value):
+                calls.append(n)
+        if len(calls) == 1 and loop_unconditional(cfgf, lp, calls[0]) and loop_runs_to_end(lp):
+            c = calls[0]
+            ba = bound_args(c, cforce) or {}
+            first = ba.get(cforce.params[1]) if cforce is not None and len(cforce.params) > 1 else (c.args[0] if c.args else None)
+            if kwname is not None:
+                same = first is not None and src(first) == tparam and '**' in ba and src(ba['**']) == kwname and set(ba) <= {cforce.params[1], '**'}
+            else:
+                # explicit flags: each forwarded to the parameter of the same name
+                same = first is not None and src(first) == tparam and all(isinstance(v, ast.Name) and v.id == k and k in ff.params for k, v in ba.items() if k != cforce.params[1]) \
+                    and all(p in ba for p in ff.params[2:])
+            stored = {n.id for n in A.typer.own_nodes(ff) if isinstance(n, ast.Name) and isinstance(n.ctx, ast.Store)}
+            reassigned = bool(stored & ({tparam, kwname} | set(ff.params[2:]))) or \
+                any(isinstance(n, (ast.Subscript, ast.Attribute)) and isinstance(n.ctx, (ast.Store, ast.Del)) and src(n.value) in (tparam, kwname) for n in A.typer.own_nodes(ff))
+            ok = bool(same) and not reassigned
+            why = 'the request or its flags are changed on the way' if not ok else ''
+        else:
+            why = 'the call is conditional or missing'
+    return ok, why
+
+
 def run(A, R: Report, thorough: bool):
     R.explanation = ('Def-use of the shared registry from MultiChain.__init__ through Chain.__init__ into the second construction pass; structural rules on the member loop and on the '
                      'force fan-out; the registry key of parameter-mode tasks. Member chains otherwise run exactly the code of standalone chains (same constructor), so equality of tasks, '
@@ -149,34 +209,5 @@ def run(A, R: Report, thorough: bool):
     R.rule('R13.4', 'MultiChain.force calls chain.force(<the same tasks>, **kwargs) on every chain, unconditionally', floor=1)
     ff = mc.methods.get('force')
     R.require(ff is not None, 'anchor: MultiChain.force missing')
-    tparam = ff.params[1]
-    kwname = ff.node.args.kwarg.arg if ff.node.args.kwarg else 'kwargs'
-    cfgf = A.cfg(ff)
-    loops = [n for n in inl(A, ff) if isinstance(n, ast.For)]
-    ok = False
-    why = 'no loop over the chains'
-    cforce = chain.methods.get('force')
-    for lp in loops:
-        it = src(lp.iter)
-        if 'self.chains' not in it or not isinstance(lp.target, ast.Name):
-            continue
-        by_value = it == 'self.chains.values()'
-        by_key = it in ('self.chains', 'self.chains.keys()', 'list(self.chains)', 'sorted(self.chains)', 'list(self.chains.keys())')
-        calls = []
-        for n in ast.walk(lp):
-            if isinstance(n, ast.Call) and isinstance(n.func, ast.Attribute) and n.func.attr == 'force':
-                rcv = subst_single_assign(A, ff, n.func.value)
-                if (by_value and src(rcv) == lp.target.id) or (by_key and src(rcv) == f'self.chains[{lp.target.id}]'):
-                    calls.append(n)
-        if len(calls) == 1 and loop_unconditional(cfgf, lp, calls[0]) and loop_runs_to_end(lp):
-            c = calls[0]
-            ba = bound_args(c, cforce) or {}
-            first = ba.get(cforce.params[1]) if cforce is not None and len(cforce.params) > 1 else (c.args[0] if c.args else None)
-            same = first is not None and src(first) == tparam and '**' in ba and src(ba['**']) == kwname
-            reassigned = any(isinstance(n, ast.Name) and isinstance(n.ctx, ast.Store) and n.id in (tparam, kwname) for n in A.typer.own_nodes(ff)) or \
-                any(isinstance(n, (ast.Subscript, ast.Attribute)) and isinstance(n.ctx, (ast.Store, ast.Del)) and src(n.value) in (tparam, kwname) for n in A.typer.own_nodes(ff))
-            ok = bool(same) and not reassigned and (by_value or by_key)
-            why = 'the request or its flags are changed on the way' if not ok else ''
-        else:
-            why = 'the call is conditional or missing'
+    ok, why = multichain_force_fanout(A)
     R.check(ok, 'R13.4', 'MultiChain.force', key_of('fanout', why), 'every chain forced with the same request', f'MultiChain.force does not reach every chain with the original request ({why}): tasks that differ between the chains stay unforced in some of them', where=where(ff))
